@@ -270,3 +270,80 @@ theorem matchLen_isSome_of_single (t : ScanTerm) (hla : t.la = none) (c : Nat) (
     simp [hn, hla, laHolds]
 
 end ParolModel
+
+namespace ParolModel
+
+/-- `longestFrom` returns the greatest length `j ≥ 1` such that the first `j` characters are matched
+    by `r` and `ok` holds for the rest — or `best` if there is no such `j`. -/
+theorem longestFrom_char (ok : List Nat → Bool) :
+    ∀ (w : List Nat) (r : Re) (n : Nat) (best : Option Nat),
+    ((∀ j, 1 ≤ j → j ≤ w.length → ¬ (matchesRe r (w.take j) = true ∧ ok (w.drop j) = true)) ∧
+        longestFrom ok r w n best = best) ∨
+    (∃ j, 1 ≤ j ∧ j ≤ w.length ∧ matchesRe r (w.take j) = true ∧ ok (w.drop j) = true ∧
+        longestFrom ok r w n best = some (n + j) ∧
+        ∀ j', j < j' → j' ≤ w.length → ¬ (matchesRe r (w.take j') = true ∧ ok (w.drop j') = true)) := by
+  intro w
+  induction w with
+  | nil => intro r n best; left; exact ⟨fun j h1 h2 => by simp at h2; omega, rfl⟩
+  | cons x xs ih =>
+    intro r n best
+    have hshift : ∀ j, matchesRe r ((x :: xs).take (j + 1)) = matchesRe (deriv r x) (xs.take j) := by
+      intro j; simp [matchesRe, derivs]
+    have hone : matchesRe r ((x :: xs).take 1) = nullable (deriv r x) := by simp [matchesRe, derivs]
+    simp only [longestFrom]
+    rcases ih (deriv r x) (n + 1) (if nullable (deriv r x) && ok xs then some (n + 1) else best) with
+      ⟨hno, hres⟩ | ⟨j, hj1, hj2, hm, hok, hres, hmax⟩
+    · by_cases hc : (nullable (deriv r x) && ok xs) = true
+      · right
+        rw [if_pos hc] at hres ⊢
+        refine ⟨1, Nat.le_refl _, by simp, ?_, ?_, by rw [hres], ?_⟩
+        · rw [hone]; simp only [Bool.and_eq_true] at hc; exact hc.1
+        · simp only [Bool.and_eq_true] at hc; simpa using hc.2
+        · intro j' h1 h2
+          obtain ⟨j'', rfl⟩ : ∃ j'', j' = j'' + 1 := ⟨j' - 1, by omega⟩
+          rw [hshift]
+          simp only [List.length_cons] at h2
+          simpa using hno j'' (by omega) (by omega)
+      · left
+        rw [if_neg hc] at hres ⊢
+        refine ⟨?_, hres⟩
+        intro j h1 h2
+        obtain ⟨j'', rfl⟩ : ∃ j'', j = j'' + 1 := ⟨j - 1, by omega⟩
+        simp only [List.length_cons] at h2
+        by_cases h0 : j'' = 0
+        · subst h0
+          rw [hone]
+          simpa [Bool.and_eq_true] using hc
+        · rw [hshift]
+          simpa using hno j'' (by omega) (by omega)
+    · right
+      refine ⟨j + 1, by omega, by simp; omega, ?_, ?_, ?_, ?_⟩
+      · rw [hshift]; exact hm
+      · simpa using hok
+      · rw [hres]; congr 1; omega
+      · intro j' h1 h2
+        obtain ⟨j'', rfl⟩ : ∃ j'', j' = j'' + 1 := ⟨j' - 1, by omega⟩
+        simp only [List.length_cons] at h2
+        rw [hshift]
+        simpa using hmax j'' (by omega) (by omega)
+
+/-- The match length of a terminal is the greatest `n ≥ 1` such that the first `n` characters belong
+    to the language of its regex and its lookahead condition holds for the rest. -/
+theorem matchLenSpec_some (t : ScanTerm) (w : List Nat) (n : Nat) (h : t.matchLenSpec w = some n) :
+    1 ≤ n ∧ n ≤ w.length ∧ matchesRe t.re (w.take n) = true ∧ laHolds t.la (w.drop n) = true ∧
+    ∀ m, n < m → m ≤ w.length → ¬ (matchesRe t.re (w.take m) = true ∧ laHolds t.la (w.drop m) = true) := by
+  rcases longestFrom_char (laHolds t.la) w t.re 0 none with ⟨_, hres⟩ | ⟨j, h1, h2, hm, hok, hres, hmax⟩
+  · simp only [ScanTerm.matchLenSpec] at h; rw [hres] at h; cases h
+  · simp only [ScanTerm.matchLenSpec] at h
+    rw [hres] at h
+    have : j = n := by simpa using h
+    subst this
+    exact ⟨h1, h2, hm, hok, hmax⟩
+
+theorem matchLenSpec_none (t : ScanTerm) (w : List Nat) (h : t.matchLenSpec w = none) :
+    ∀ j, 1 ≤ j → j ≤ w.length → ¬ (matchesRe t.re (w.take j) = true ∧ laHolds t.la (w.drop j) = true) := by
+  rcases longestFrom_char (laHolds t.la) w t.re 0 none with ⟨hno, _⟩ | ⟨j, _, _, _, _, hres, _⟩
+  · exact hno
+  · simp only [ScanTerm.matchLenSpec] at h; rw [hres] at h; cases h
+
+end ParolModel
